@@ -9,6 +9,7 @@ from ..model import AnalysisError, attr_path, dotted, expand_path, local_aliases
 from ..report import Check
 from .c09 import _lazy_auxdata
 from .codecs import codec_facts
+from .purity import codec_state
 
 RULES = {
     "R14.1": "typestate who-may-write: _data and _lazy_container are assigned only in __init__, "
@@ -18,6 +19,8 @@ RULES = {
              "AND the type name is unchanged; otherwise the current value is encoded (through the "
              "data property) under the current type name",
     "R14.3": "lazy decode uses the loaded bytes, the loaded type name and the loading IR's lookup",
+    "R14.5": "the typestate has exactly three fields: AuxData, its lazy container and the "
+             "serializer keep no other (cached) state that could feed the saved bytes",
     "R14.4": "unknown codecs: a missing codec anywhere in the type yields UnknownData of the "
              "complete input; UnknownData encodes verbatim before any type parsing",
 }
@@ -42,6 +45,7 @@ def run(chk: Check) -> None:
         if o.rule == "R09.4":
             o.rule = "R14.3"
     _unknown(chk)
+    codec_state(chk, "R14.5", ("auxdata", "serialization"))
 
 
 def _typestate(chk: Check, ad) -> None:
